@@ -289,7 +289,13 @@ impl Resolver<'_> {
             return vec![wildcard_field];
         }
 
-        for (name, decl) in module.names.iter().sorted_by_key(|(_, d)| d.order) {
+        // break ties on `order` by name: the names live in a hash map, and an input relation
+        // and a computed column can carry the same order
+        for (name, decl) in module
+            .names
+            .iter()
+            .sorted_by_key(|(name, d)| (d.order, name.as_str()))
+        {
             res.push(match &decl.kind {
                 DeclKind::Module(submodule) => {
                     let prefix = [prefix.to_vec(), vec![name]].concat();
